@@ -52,7 +52,12 @@ func genC10(t *rapid.T) c10Case {
 	g := &bq.QGen{T: t, U: u, Data: visible}
 	nm := 1 + gen.Uniform(t, 3, "nmandatory")
 	for i := 0; i < nm; i++ {
-		c.Mandatory = append(c.Mandatory, g.GenClauseMixed(fmt.Sprintf("m%d", i), bq.ClauseOpts{}))
+		// the mandatory part should mostly have solutions (C03 owns the other cases)
+		if len(visible) > 0 && gen.Maybe(t, 93, "mfromdata") {
+			c.Mandatory = append(c.Mandatory, g.GenClauseFrom(gen.Pick(t, visible, "mwitness"), fmt.Sprintf("m%d", i), bq.ClauseOpts{}))
+		} else {
+			c.Mandatory = append(c.Mandatory, g.GenClauseMixed(fmt.Sprintf("m%d", i), bq.ClauseOpts{}))
+		}
 	}
 	no := 1 + gen.Uniform(t, 2, "noptional")
 	ground := false
